@@ -286,12 +286,29 @@ func runC15(p *core.Prog, r *core.Report) {
 		// key combiners: result = result && x  /  result || x, selected by the node type — through closures
 		// created under the type cases, directly under the type cases, or through a flag set under them
 		kyOps, kySites := boolCombiners(ky)
+		kyLoopFn := ky
+		if len(kyOps) == 0 {
+			// the folding of the remaining children may be a helper method of the evaluator
+			for _, m := range core.Family(ky, 1) {
+				if m == ky || m.Parent() != nil {
+					continue
+				}
+				if ops, sites := boolCombiners(m); len(ops) > 0 {
+					kyOps, kySites, kyLoopFn = ops, sites, m
+					r.Touch(core.FuncName(m))
+				}
+			}
+		}
 		r.Check(kyOps["*AndExpression"] == "&&", "C15.R1", "keys/AND", "an AND node is the conjunction of the children's truth values", "combiner is "+kyOps["*AndExpression"], p.Pos(ky.Pos()))
 		r.Check(kyOps["*OrExpression"] == "||", "C15.R1", "keys/OR", "an OR node is the disjunction of the children's truth values", "combiner is "+kyOps["*OrExpression"], p.Pos(ky.Pos()))
 		// every child is combined: the loop over children[1:] applies op to apply(child)
 		for _, f := range []*ssa.Function{bm, ky} {
 			okLoop := false
-			for _, l := range core.Loops(f) {
+			loopFn := f
+			if f == ky {
+				loopFn = kyLoopFn
+			}
+			for _, l := range core.Loops(loopFn) {
 				hasRec, hasOp := false, false
 				for blk := range l.Body {
 					for _, in := range blk.Instrs {
@@ -319,7 +336,7 @@ func runC15(p *core.Prog, r *core.Report) {
 		}
 		// KeyTerm: absent key → empty bitmap / false; present → its bitmap / true
 		okAbsent := false
-		core.Instrs(bm, func(in ssa.Instruction) {
+		core.InstrsDeep(bm, func(in ssa.Instruction) { // (the lookup may be a helper method of the evaluator)
 			lk, ok := in.(*ssa.Lookup)
 			if !ok || !lk.CommaOk {
 				return
